@@ -581,7 +581,7 @@ def run(ck, build):
     # the same clause for HKDF: which bytes of the caller's buffer a call writes (left-over bytes, whole and partial blocks, and the zero
     # fill of exactly the rest when the 255-block limit is hit) - taken from the HKDF stream summaries (C13 decides the values)
     from . import kdflib as _kdf
-    _wr = ("refuse-zero-fill", "refuse-before-loop", "leftover-short", "leftover-all", "block-copy")
+    _wr = ("refuse-zero-fill", "refuse-before-loop", "leftover-short", "leftover-all", "leftover-extent", "block-copy")
 
     def _hk(cond, rule, fn, cons, ok, bad, where=None):
         if cons.startswith(_wr):
